@@ -47,6 +47,10 @@ func (lt LiteralType) SemanticTokens(ctx context.Context) []lang.SemanticToken {
 		if !ok {
 			return []lang.SemanticToken{}
 		}
+		if expr.Range().Empty() {
+			// e.g. empty branch of a template directive
+			return []lang.SemanticToken{}
+		}
 
 		// While interpolation is not allowed/expected in LiteralType
 		// we still assume that expressions are convertible.
